@@ -15,6 +15,10 @@ use serde_json::{Value, json};
 
 #[cfg(feature = "k_naming")]
 mod k_naming;
+#[cfg(feature = "k_gen")]
+mod k_gen;
+#[cfg(feature = "k_gen")]
+mod facts;
 
 pub type OpResult = Result<Value, String>;
 
@@ -23,6 +27,8 @@ fn dispatch(op: &str, input: &mut Value) -> OpResult {
   match ns {
     #[cfg(feature = "k_naming")]
     "naming" => k_naming::eval(op, input),
+    #[cfg(feature = "k_gen")]
+    "gen" => k_gen::eval(op, input),
     _ => Err(format!("unknown-op:{op}")),
   }
 }
